@@ -271,6 +271,11 @@ pub fn exec(case: &str) -> Exec {
             let cwd = std::env::current_dir().ok();
             if relative { let _ = std::env::set_current_dir(&dir); }
             let path = if relative { name.clone() } else { format!("{}/{}", dir, name) };
+            // two cases in three the target already exists and is longer than anything that will be written: saving
+            // replaces a file, it does not write over its beginning
+            let preexisting = name.len() % 3 != 0;
+            if preexisting { let _ = std::fs::write(&path, vec![b'#'; 400_000]); }
+            ex.tags.push(format!("save-target-exists:{preexisting}"));
             let res = guarded(|| if gz { save_gz(&pdb, &path, StrictnessLevel::Loose, None) } else { save(&pdb, &path, StrictnessLevel::Loose) });
             let written = std::fs::read(&path).ok();
             let _ = std::fs::remove_file(&path);
